@@ -1,8 +1,2 @@
-import RQ.Spec.Write
-open RQ RQ.Parse RQ.Write
-example : ∀ n : Fin 10, isDigit (UInt8.ofNat (48 + n.val)) = true := by decide
-example (n : Nat) (h : n < 10) : (UInt8.ofNat (48 + n)).toNat = 48 + n := by
-  simp [UInt8.toNat_ofNat']; omega
-#check @UInt8.toNat_ofNat'
-#check @UInt8.le_iff_toNat_le
-#check @UInt8.ofNat_toNat
+import RQ.Lemmas.RoundTripInvFile
+#print axioms RQ.Write.parsePatch_inv
